@@ -469,7 +469,7 @@ Emit ==
 (* Constant sets used by the configurations. *)
 All == 100000000
 ChunkingsMC == {<<All>>, <<1>>, <<2>>, <<3>>, <<4>>, <<1, 2>>, <<0, 5>>, <<767>>, <<768>>, <<769>>, <<5, 1, 767>>, <<1000, 1>>}
-ChunkingsGen == ChunkingsMC \cup {<<7>>, <<1024>>, <<32>>, <<24, 23>>}
+ChunkingsGen == ChunkingsMC \cup {<<7>>, <<1024>>, <<32>>, <<24, 23>>, <<99>>, <<100>>, <<300>>, <<500>>, <<1000>>, <<4096>>}
 ChunkingsOne == {<<All>>, <<5, 1, 767>>}
 ChunkingsAllOnly == {<<All>>}
 
